@@ -126,9 +126,9 @@ type Config struct {
 	GenesisEvents  int
 	ExistingDB     *db.DB // restart on an existing database
 	ExistingApp    *MockABI
-	GenesisTimeFix uint32 // reuse the genesis timestamp of an earlier instance (restart)
-	FS             vfs.FS // run pebble on this file system (crash simulation); nil = fresh in-memory FS
-	RecoverApp     bool   // rebuild the mock application's state-root history from the chain found in the DB
+	GenesisTimeFix uint32   // reuse the genesis timestamp of an earlier instance (restart)
+	FS             vfs.FS   // run pebble on this file system (crash simulation); nil = fresh in-memory FS
+	RecoverApp     bool     // rebuild the mock application's state-root history from the chain found in the DB
 	StartP2P       bool     // start the real libp2p connection (needed by handlers that ban peers, and by sync)
 	P2PAddrs       []string // listen addresses when StartP2P (empty: no listener)
 	P2PSeed        []byte
@@ -142,7 +142,8 @@ func DefaultConfig(n int) Config {
 // ---- mock application ----------------------------------------------------------------------
 
 // Transaction params script (first byte): 0 ok, 1 verify-invalid, 2 execute-fails (still included),
-// 3 verify-pending, 9 validator change (second byte = menu index), 0xEE ABI error on execute.
+// 3 verify-pending, 6 executes as invalid but reports events, 9 validator change (second byte = menu index),
+// 0xEE ABI error on execute.
 type MockABI struct {
 	mu      sync.Mutex
 	cfg     *Config
@@ -289,6 +290,16 @@ func (m *MockABI) ExecuteTransaction(req *labi.ExecuteTransactionRequest) (*labi
 	t := req.Transaction
 	if len(t.Params) > 0 && t.Params[0] == 0xEE {
 		return nil, fmt.Errorf("mock: application error while executing")
+	}
+	if len(t.Params) > 0 && t.Params[0] == 6 {
+		// passes verification but executes as invalid, and (as the framework does when a hook after the command
+		// fails) still reports the events produced so far: the transaction may not be included in a block
+		h := uint32(0)
+		if m.cur != nil {
+			h = m.cur.Height
+		}
+		ev := blockchain.NewEventFromValues(t.Module, "partial", []byte{6}, []codec.Hex{t.ID}, h, 0)
+		return &labi.ExecuteTransactionResponse{Events: []*blockchain.Event{ev}, Result: labi.TxExecuteResultInvalid}, nil
 	}
 	ok := len(t.Params) == 0 || t.Params[0] != 2
 	if len(t.Params) >= 2 && t.Params[0] == 9 && int(t.Params[1]) < len(m.cfg.ValChangeMenu) {
